@@ -163,6 +163,117 @@ def run(chk):
     res = [d for d in loc.values() if d.get("name") == "result"]
     chk.ob("C11-D4.kernel", f.name, "result has num_strips * new_stride entries", bool(res) and "num_strips * new_stride" in txt(res[0]), f.where)
 
+    # ------------------------------------------------------------------ D6 shape of the split containers
+    chk.rule("C11-D6.shape", "the container returned by splitData / splitValues has stride iend - ibegin, the strip count of its source and the data produced by spltVector2D(source data, "
+                             "source stride, ibegin, iend): the object is followed through constructor initialiser lists and member assignments to the returned value")
+    import sympy
+    from tsg.sym import to_sympy, NotClosedForm
+
+    def record_eval(f):
+        """field values (as sympy expressions over parameters and this->members, non-numeric values as tagged symbols) of the object returned on the main path"""
+        def rs(env):
+            def r(n):
+                k = n.get("k")
+                if k == "DeclRefExpr" and n.get("did") in env:
+                    return env[n["did"]]
+                if k == "DeclRefExpr" and n.get("var"):
+                    return sympy.Symbol(n["var"])
+                if k == "MemberExpr" and n.get("field") and not n.get("fn"):
+                    return sympy.Symbol("this." + short(n["field"]))
+                if k == "CallExpr" and (callee(n) or "") in ("std::move", "std::forward"):
+                    a = strip(call_args(n)[0])
+                    return r(a) if a is not None else None
+                if k in ("CallExpr", "CXXMemberCallExpr"):
+                    return sympy.Symbol("call:" + txt(n).replace(" ", ""))
+                return None
+            return r
+
+        def construct(e, env):
+            args = [c for c in e.get("c", []) if isinstance(c, dict)]
+            if len(args) == 1:
+                a0 = strip(args[0])
+                if a0 is not None and a0.get("k") == "CallExpr" and (callee(a0) or "") == "std::move":
+                    a0 = strip(call_args(a0)[0])
+                if a0 is not None and a0.get("k") == "DeclRefExpr" and a0.get("did") in records:
+                    return dict(records[a0["did"]])       # copy / move of a local object
+            t = db.resolve(e)
+            if t is None:
+                return None
+            cenv = {}
+            for prm, a in zip(t.params(), args):
+                try:
+                    cenv[prm["did"]] = to_sympy(a, rs(env))
+                except NotClosedForm:
+                    cenv[prm["did"]] = sympy.Symbol("expr:" + txt(a).replace(" ", ""))
+            rec = {}
+            for ini in t.d.get("inits", []) or []:
+                if not ini.get("field") or ini.get("init") is None:
+                    continue
+                try:
+                    rec[short(ini["field"])] = to_sympy(ini["init"], rs(cenv))
+                except NotClosedForm:
+                    # move(x) / x of a non-numeric parameter: keep the argument's tag
+                    v = None
+                    for q in walk(ini["init"]):
+                        if q.get("k") == "DeclRefExpr" and q.get("did") in cenv:
+                            v = cenv[q["did"]]
+                    rec[short(ini["field"])] = v if v is not None else sympy.Symbol("expr:" + txt(ini["init"]).replace(" ", ""))
+            return rec
+        records = {}
+        env = {}
+        last = None
+        body = f.body
+        for st in [c for c in body.get("c", []) if isinstance(c, dict)]:
+            k = st.get("k")
+            if k == "DeclStmt":
+                for d in st.get("c", []):
+                    ini = [c for c in d.get("c", []) if isinstance(c, dict)]
+                    ce = next((q for q in walk(ini[0]) if q.get("k") in ("CXXConstructExpr", "CXXTemporaryObjectExpr")), None) if ini else None
+                    if ce is not None and d.get("t", "").replace("TasGrid::", "") == (f.d.get("ret") or "").replace("TasGrid::", ""):
+                        rec = construct(ce, env)
+                        if rec is not None:
+                            records[d["did"]] = rec
+            elif k in ("BinaryOperator", "CXXOperatorCallExpr") and st.get("op") == "=":
+                ch = [c for c in st.get("c", []) if isinstance(c, dict)]
+                lhs, rhs = (ch[-2], ch[-1])
+                l = strip(lhs)
+                if l is not None and l.get("k") == "MemberExpr" and l.get("field"):
+                    base = strip(l["c"][0]) if l.get("c") else None
+                    if base is not None and base.get("k") == "DeclRefExpr" and base.get("did") in records:
+                        try:
+                            records[base["did"]][short(l["field"])] = to_sympy(rhs, rs(env))
+                        except NotClosedForm:
+                            records[base["did"]][short(l["field"])] = sympy.Symbol("call:" + txt(strip(rhs)).replace(" ", ""))
+            elif k == "ReturnStmt":
+                ce = next((q for q in walk(st) if q.get("k") in ("CXXConstructExpr", "CXXTemporaryObjectExpr")), None)
+                if ce is not None:
+                    last = construct(ce, env)
+        return last
+
+    nshape = 0
+    for name, fstride, fcount, fdata, src_stride, src_data in (("TasGrid::Data2D<double>::splitData", "stride", "num_strips", "vec", "this.stride", "this.vec"),
+                                                               ("TasGrid::Data2D<int>::splitData", "stride", "num_strips", "vec", "this.stride", "this.vec"),
+                                                               ("TasGrid::StorageSet::splitValues", "num_outputs", "num_values", "values", "this.num_outputs", "this.values")):
+        for f in db.fns(name, required=False):
+            chk.saw(f)
+            rec = record_eval(f)
+            nshape += 1
+            ib, ie = sympy.Symbol("ibegin"), sympy.Symbol("iend")
+            problems = []
+            if rec is None:
+                problems.append("returned object could not be followed")
+            else:
+                if sympy.simplify(rec.get(fstride, sympy.Symbol("?")) - (ie - ib)) != 0:
+                    problems.append("%s = %s, expected iend - ibegin" % (fstride, rec.get(fstride)))
+                if sympy.simplify(rec.get(fcount, sympy.Symbol("?")) - sympy.Symbol("this." + fcount)) != 0:
+                    problems.append("%s = %s, expected the %s of the source" % (fcount, rec.get(fcount), fcount))
+                dv = str(rec.get(fdata, ""))
+                want = "call:spltVector2D(%s,%s,ibegin,iend)" % (src_data.replace("this.", ""), src_stride.replace("this.", ""))
+                if dv.replace("this->", "") != want:
+                    problems.append("%s = %s, expected %s" % (fdata, dv, want))
+            chk.ob("C11-D6.shape", f.key, "shape of the returned container", not problems, f.where, "; ".join(problems), "(iend - ibegin, source count, spltVector2D(...))")
+    chk.floor("C11-D6.shape", nshape, 2, "split kernels returning a container")
+
     # ------------------------------------------------------------------ D5
     cg = db.fn(TSG + "::copyGrid", sig="TasmanianSparseGrid *,int,int")
     chk.saw(cg)
